@@ -221,9 +221,20 @@ def transporterCovolOk (I1 I2 : LeftIdeal) (T : Lattice) : Bool :=
 /-- the element 1 -/
 def elemOne : Elem := ⟨1, ⟨1, 0, 0, 0⟩⟩
 
-/-- `O` is a ring: HNF, contains 1, closed under multiplication -/
+/-- the conjugates of the basis vectors lie in the lattice -/
+def conjContained (O : Lattice) : Bool := idx4.all fun k => (latContains O (algConj (latCol O k))).1
+
+/-- `O` is a ring stable under conjugation: HNF, contains 1, closed under multiplication and conjugation -/
 def isOrderCert (p : Int) (O : Lattice) : Bool :=
-  latWf O && (latContains O elemOne).1 && prodsContained p O O O
+  latWf O && (latContains O elemOne).1 && prodsContained p O O O && conjContained O
+
+/-- `x / n` -/
+def elemDivInt (x : Elem) (n : Int) : Elem := ⟨x.denom * n, x.coord⟩
+
+/-- every `b̄_k·c_i / n` (b_k basis of `l1`, c_i basis of `l2`) lies in `T`, i.e. `l̄1·l2 ⊆ n·T` -/
+def conjProdsContained (p n : Int) (l1 l2 T : Lattice) : Bool :=
+  idx4.all fun k => idx4.all fun i =>
+    (latContains T (elemDivInt (algMul p (algConj (latCol l1 k)) (latCol l2 i)) n)).1
 
 /-- Certificate check for `quat_lideal_right_order(O'; I)`: `O'` is a ring (contains 1, closed under
     multiplication), `I·O' ⊆ I`, and `O'` has the same covolume as the parent order of `I`
@@ -231,6 +242,16 @@ def isOrderCert (p : Int) (O : Lattice) : Bool :=
 def isRightOrderCert (p : Int) (I : LeftIdeal) (O' : Lattice) : Bool :=
   isOrderCert p O' && latWf I.lattice && prodsContained p I.lattice O' I.lattice &&
   covolRatioIs O' I.order 1 1
+
+/-- **Complete** certificate check for `quat_lattice_right_transporter(T; I1, I2)` on left ideals of the same order:
+    `I1·T ⊆ I2` *and* `Ī1·I2 ⊆ N(I1)·T`.  For `I1` of norm `N(I1)` with `N(I1) ∈ Ī1·I1` (e.g. any ideal with a generator
+    of cofactor coprime to the norm) the transporter is `N(I1)⁻¹·Ī1·I2`, so acceptance means `T` *is* the transporter. -/
+def isRightTransporterExact (p : Int) (I1 I2 : LeftIdeal) (T : Lattice) : Bool :=
+  isRightTransporterCert p I1.lattice I2.lattice T && latWf T && I1.norm != 0 && I2.lattice.denom != 0 &&
+  conjProdsContained p I1.norm I1.lattice I2.lattice T
+
+/-- complete certificate check for `quat_lideal_right_order` -/
+def isRightOrderExact (p : Int) (I : LeftIdeal) (O' : Lattice) : Bool := isRightTransporterExact p I I O'
 
 /-- the lattice `L·x` (columns `b_k·x`), in HNF with reduced denominator: the same computation as
     `quat_lideal_create_principal` performs on the order's basis -/
@@ -285,10 +306,26 @@ def hasMaximalDisc (p : Int) (O : Lattice) : Bool :=
   let d := traceDisc p O
   d.2 != 0 && d.1 == p * p * d.2
 
-/-- a maximal-order table entry: HNF, ring, discriminant p² -/
+/-- `d²·trd(a·b̄)` for two coordinate vectors over the common denominator `d`: `2(a0b0 + a1b1 + p·a2b2 + p·a3b3)` -/
+def bilForm (p : Int) (a b : Vec4) : Int := 2 * (a.x0 * b.x0 + a.x1 * b.x1 + p * (a.x2 * b.x2) + p * (a.x3 * b.x3))
+
+/-- Gram matrix of the reduced trace form `(x, y) ↦ trd(x·ȳ)` on the basis of `O` (exact quotients by `d²`) -/
+def traceGram (p : Int) (O : Lattice) : Mat4 :=
+  Mat4.ofFn fun i j => Int.tdiv (bilForm p (O.basis.col i) (O.basis.col j)) (O.denom * O.denom)
+
+/-- the trace form is integral on `O` (all `trd(b_i·b̄_j) ∈ ℤ`, all `N(b_i) ∈ ℤ`) and its Gram determinant is `p²`
+    (so the form is unimodular at every prime `ℓ ≠ p`) -/
+def gramOk (p : Int) (O : Lattice) : Bool :=
+  (idx4.all fun i => idx4.all fun j =>
+    Int.tmod (bilForm p (O.basis.col i) (O.basis.col j)) (O.denom * O.denom) == 0) &&
+  (idx4.all fun i => Int.tmod (bilForm p (O.basis.col i) (O.basis.col i)) (2 * (O.denom * O.denom)) == 0) &&
+  det4 (traceGram p O) == p * p
+
+/-- a maximal-order table entry: HNF, ring closed under conjugation, discriminant p², integral unimodular-away-from-p
+    trace form -/
 def maxOrderOk (p : Int) (t : Int × List (List Int)) : Bool :=
   match latOfTable t with
-  | some O => isOrderCert p O && hasMaximalDisc p O
+  | some O => isOrderCert p O && hasMaximalDisc p O && gramOk p O
   | none => false
 
 /-- `z² = -q`, `t² = -p`, `z·t = -t·z` on coordinates (denominators multiply) -/
